@@ -1,0 +1,46 @@
+//go:build verif
+
+package sequence
+
+// Contracts checked by /verif's govc.  Comments only; build tag "verif".
+
+//@ unit sequence nopanic
+//@ // the 8-byte big-endian value persisted under the sequence's key in the system store (one key: the
+//@ // contracts speak about a single sequence object)
+//@ ghost stored uint64
+//@ spec be8(s []byte) uint64 = uint64(s[0])<<56 | uint64(s[1])<<48 | uint64(s[2])<<40 | uint64(s[3])<<32 | uint64(s[4])<<24 | uint64(s[5])<<16 | uint64(s[6])<<8 | uint64(s[7])
+//@
+//@ extern datastore.CtxMustGetTxn(ctx) -> (t)
+//@   pure
+//@ extern (datastore.Txn).Systemstore(t) -> (s)
+//@   pure
+//@ extern (keys.Key).Bytes(k) -> (b)
+//@   pure
+//@ extern (corekv.ReaderWriter).Get(s, ctx, k) -> (v, e)
+//@   ensures e == nil ==> len(v) >= 8 && be8(v) == stored
+//@ extern (corekv.ReaderWriter).Set(s, ctx, k, v) -> (e)
+//@   requires len(v) == 8
+//@   ensures e == nil ==> stored == be8(v)
+//@   ensures e != nil ==> stored == old(stored)
+//@   modifies stored
+//@
+//@ // ===== C14: a sequence value is persisted (in the caller's transaction) before it is handed out, so a
+//@ // node reopened on the store continues after the last value and never reuses an identifier
+//@ func (*Sequence).Get -> (r, err)
+//@   ensures err == nil ==> r == stored && seq.val == stored
+//@   ensures stored == old(stored)
+//@   tags C14
+//@ func (*Sequence).Update -> (err)
+//@   ensures err == nil ==> stored == old(seq.val)
+//@   ensures err != nil ==> stored == old(stored)
+//@   modifies stored
+//@   tags C14
+//@ func (*Sequence).Next -> (r, err)
+//@   ensures err == nil ==> r == old(stored) + 1 && stored == r
+//@   modifies stored
+//@   tags C14
+//@ func Get -> (seq, err)
+//@   ensures err == nil && is(res(Get, 1, 1), corekv.ErrNotFound) ==> stored == 0 && seq.val == 0
+//@   ensures err == nil && res(Get, 1, 1) == nil ==> stored == old(stored) && seq.val == stored
+//@   modifies stored
+//@   tags C14
